@@ -150,6 +150,7 @@ type verifHub struct {
 	dsm    *DsManager
 	errlog *bytes.Buffer // error-level log lines of the hub (NewStore swallows badger.Open's error)
 	shares func(ds string) // called when StoreEntitiesWithTransaction starts on a dataset (via the statsd client)
+	cfg    *conf.Config
 }
 
 // statsd client that reports the "ds.added.items" counter StoreEntitiesWithTransaction emits first thing: the only way to
@@ -179,6 +180,7 @@ func (h *verifHub) open() {
 	h.errlog = &bytes.Buffer{}
 	core := zapcore.NewCore(zapcore.NewConsoleEncoder(zap.NewDevelopmentEncoderConfig()), verifSyncBuf{h.errlog}, zapcore.ErrorLevel)
 	cfg := &conf.Config{Logger: zap.New(core).Sugar(), StoreLocation: h.dir + "/store"}
+	h.cfg = cfg
 	h.store = NewStore(cfg, &verifStatsd{h: h})
 	h.dsm = NewDsManager(cfg, h.store, NoOpBus())
 }
